@@ -222,6 +222,13 @@ func (c *Conn) connect(ctx context.Context) error {
 	go func() {
 		select {
 		case <-ctx.Done():
+			select {
+			case <-done:
+				// The dial completed before we got to run (select picks at random when both
+				// are ready): cancelling the context afterwards must not disconnect.
+				return
+			default:
+			}
 			debugf("context cancellation - sending disconnect frame...")
 			c.p.write(disconnectFrame(c.srcCall, c.dstCall, c.p.port))
 		case <-done:
